@@ -722,9 +722,12 @@ pub fn gen_trace(p: &mut Prng) -> Vec<(u64, bool)> {
         out.push((t, dir));
     }
     // one trace in twelve spans more than 2^32 microseconds (71.6 minutes): a gap of 1.2 to 3 hours
-    if out.len() >= 2 && p.chance(1, 12) {
+    if out.len() >= 2 && p.chance(1, 8) {
         let at = 1 + p.below(out.len() as u64 - 1) as usize;
-        let shift = 4_300_000_000_000 + p.below(6_500_000_000_000);
+        // either a generous gap, or one that lands the rest of the trace just past the 2^32 microsecond
+        // mark (and past 2^32 milliseconds' worth is out of reach): times that wrap around a 32-bit
+        // microsecond counter then compare as EARLIER than the first part
+        let shift = if p.chance(1, 2) { 4_300_000_000_000 + p.below(6_500_000_000_000) } else { 4_294_967_296_000 + p.below(3_000_000) };
         for x in out.iter_mut().skip(at) {
             x.0 += shift;
         }
